@@ -14,7 +14,9 @@ CONSTANTS MaxN,        \* sizes 1..MaxN
           ScalarPats,  \* patterns of A for scalar ops
           BinAPats,    \* patterns of A for binary ops
           BinBPats,    \* patterns of B for binary ops
-          Scalars      \* scalar values
+          Scalars,     \* scalar values
+          TwoFull      \* two-operation sequences: FALSE = quick slice (n = 1..2 reduced shapes + a slice of n = 3),
+                       \* TRUE = every storage shape of all three operands for n = 1..3
 
 MC_Scalars == {-1, 0, 1, 2}
 MC_AllPats == {"zero", "dist", "eye", "eyex", "eyel", "eyeu"}
@@ -25,9 +27,9 @@ MC_ThoroughScalarPats == {"zero", "dist", "eye", "eyel", "eyeu"}
 MC_ThoroughBinAPats == {"zero", "dist", "eye"}
 MC_ThoroughBinBPats == {"zero", "sq", "eye"}
 
-VARIABLES sc, pc, A, B, R, dA, dB, cok
+VARIABLES sc, pc, A, B, C, R, R2, dA, dB, dC, dR, cok
 
-vars == <<sc, pc, A, B, R, dA, dB, cok>>
+vars == <<sc, pc, A, B, C, R, R2, dA, dB, dC, dR, cok>>
 
 CtorCfgs(n) ==
   {[ctor |-> c, ml |-> 0, mu |-> 0] : c \in Ctors \ {"from_storage_B", "banded"}}
@@ -42,8 +44,46 @@ PatsFor(cfg, n, P) == IF CtorStorage(cfg.ctor, n, cfg.ml, cfg.mu).kind = "I" THE
 
 Sc(n, cfg, pat, op, i, j, s, b, bpat) ==
   [n |-> n, ctor |-> cfg.ctor, ml |-> cfg.ml, mu |-> cfg.mu, pat |-> pat, op |-> op, i |-> i, j |-> j, s |-> s,
-   bkind |-> b.kind, bml |-> b.ml, bmu |-> b.mu, bpat |-> bpat]
+   bkind |-> b.kind, bml |-> b.ml, bmu |-> b.mu, bpat |-> bpat,
+   op2 |-> "none", i2 |-> 0, j2 |-> 0, s2 |-> 0, ckind |-> "F", cml |-> 0, cmu |-> 0, cpat |-> "zero"]
 NoB == [kind |-> "F", ml |-> 0, mu |-> 0]
+
+(* ---- two-operation sequences: A --op--> R --op2--> R2 --------------------- *)
+Band(a, b) == [kind |-> "B", ml |-> a, mu |-> b]
+IdS == [kind |-> "I", ml |-> 0, mu |-> 0]
+FuS == [kind |-> "F", ml |-> 0, mu |-> 0]
+\* storage shapes of A and of the first-op operand B
+TwoShapes(n) ==
+  IF TwoFull \/ n = 1 THEN BShapes(n)
+  ELSE IF n = 2 THEN {IdS, FuS, Band(0, 0), Band(1, 0), Band(0, 1), Band(1, 1), Band(2, 2)}
+  ELSE {IdS, FuS, Band(1, 2)}
+TwoBShapes(n) == IF TwoFull \/ n < 3 THEN TwoShapes(n) ELSE {IdS, FuS, Band(2, 1)}
+\* the fresh operand C of a binary second op
+TwoCShapes(n) ==
+  IF TwoFull THEN BShapes(n)
+  ELSE IF n = 1 THEN {IdS, FuS, Band(0, 0)} ELSE {IdS, FuS, Band(0, 1), Band(1, 0)}
+TwoBin1(n) == IF TwoFull \/ n < 3 THEN BinOps ELSE {"add", "sub_assign"}
+TwoBin2 == IF TwoFull THEN {"add", "sub", "sub_assign_ref"} ELSE {"add", "sub"}
+TwoScal2 == IF TwoFull THEN Scalars ELSE {0, 2}
+TwoSizes == 1..(IF MaxN < 3 THEN MaxN ELSE 3)
+ShapeCfg(sh) == [ctor |-> BCtor(sh.kind), ml |-> sh.ml, mu |-> sh.mu]
+
+Sc2(base, op2, i2, j2, s2, c, cpat) ==
+  [base EXCEPT !.op2 = op2, !.i2 = i2, !.j2 = j2, !.s2 = s2, !.ckind = c.kind, !.cml = c.ml, !.cmu = c.mu, !.cpat = cpat]
+
+InitTwo ==
+  \E n \in TwoSizes : \E ash \in TwoShapes(n) :
+    LET cfg == ShapeCfg(ash)
+        pat == IF ash.kind = "I" THEN "zero" ELSE "dist"
+        Firsts == {Sc(n, cfg, pat, op, 0, 0, s, NoB, "zero") : op \in ScalarOps, s \in Scalars}
+                  \cup {Sc(n, cfg, pat, op, 0, 0, 0, b, IF b.kind = "I" THEN "zero" ELSE "sq") :
+                          op \in TwoBin1(n), b \in TwoBShapes(n)}
+    IN \E base \in Firsts :
+         \/ sc = Sc2(base, "is_identity", 0, 0, 0, NoB, "zero")
+         \/ \E i2 \in 0..n - 1 : \E j2 \in 0..n - 1 : sc = Sc2(base, "write", i2, j2, 0, NoB, "zero")
+         \/ \E op2 \in ScalarOps : \E s2 \in TwoScal2 : sc = Sc2(base, op2, 0, 0, s2, NoB, "zero")
+         \/ \E op2 \in TwoBin2 : \E c \in TwoCShapes(n) :
+              sc = Sc2(base, op2, 0, 0, 0, c, IF c.kind = "I" THEN "zero" ELSE "sq")
 
 InitScenario ==
   \E n \in 1..MaxN : \E cfg \in CtorCfgs(n) :
@@ -59,11 +99,12 @@ InitScenario ==
        \E bpat \in (IF b.kind = "I" THEN {"zero"} ELSE BinBPats) :
          sc = Sc(n, cfg, pat, op, 0, 0, 0, b, bpat)
 
+NoRes == [panic |-> FALSE, mat |-> NoMat, val |-> FALSE]
 Init ==
-  /\ InitScenario
+  /\ (InitScenario \/ InitTwo)
   /\ pc = "ctorA"
-  /\ A = NoMat /\ B = NoMat /\ R = [panic |-> FALSE, mat |-> NoMat, val |-> FALSE]
-  /\ dA = <<>> /\ dB = <<>>
+  /\ A = NoMat /\ B = NoMat /\ C = NoMat /\ R = NoRes /\ R2 = NoRes
+  /\ dA = <<>> /\ dB = <<>> /\ dC = <<>> /\ dR = <<>>
   /\ cok = TRUE
 
 CtorA ==
@@ -73,7 +114,7 @@ CtorA ==
        /\ dA' = ExpectA0(sc)
        /\ cok' = (cok /\ ClauseCtorA(sc, r.panic, ReadAll(r.mat)) /\ Shape(r.mat) = StA(sc))
   /\ pc' = "fillA"
-  /\ UNCHANGED <<sc, B, R, dB>>
+  /\ UNCHANGED <<sc, B, C, R, R2, dB, dC, dR>>
 
 FillA ==
   /\ pc = "fillA"
@@ -82,7 +123,7 @@ FillA ==
        /\ dA' = WritesMeaning(dA, WsA(sc), 1)
        /\ cok' = (cok /\ ClauseFillA(sc, dA, r.panic, ReadAll(r.mat)))
   /\ pc' = IF IsBin(sc) THEN "ctorB" ELSE "op"
-  /\ UNCHANGED <<sc, B, R, dB>>
+  /\ UNCHANGED <<sc, B, C, R, R2, dB, dC, dR>>
 
 CtorB ==
   /\ pc = "ctorB"
@@ -91,7 +132,7 @@ CtorB ==
        /\ dB' = CtorMeaning(BCtor(sc.bkind), sc.n, <<>>)
        /\ cok' = (cok /\ ClauseCtorB(sc, r.panic, ReadAll(r.mat)) /\ Shape(r.mat) = StB(sc))
   /\ pc' = "fillB"
-  /\ UNCHANGED <<sc, A, R, dA>>
+  /\ UNCHANGED <<sc, A, C, R, R2, dA, dC, dR>>
 
 FillB ==
   /\ pc = "fillB"
@@ -100,7 +141,7 @@ FillB ==
        /\ dB' = WritesMeaning(dB, WsB(sc), 1)
        /\ cok' = (cok /\ ClauseFillB(sc, dB, r.panic, ReadAll(r.mat)))
   /\ pc' = "op"
-  /\ UNCHANGED <<sc, A, R, dA>>
+  /\ UNCHANGED <<sc, A, C, R, R2, dA, dC, dR>>
 
 Op ==
   /\ pc = "op"
@@ -110,10 +151,42 @@ Op ==
                       /\ r.panic = ExpectPanic(sc)
                       /\ (sc.op \notin {"swap_rows", "fill"} => ReadAll(r.mat) = ExpectRes(sc))
                       /\ (sc.op = "is_identity" => r.val = ExpectIsId(sc)))
-  /\ pc' = "done"
-  /\ UNCHANGED <<sc, A, B, dA, dB>>
+  /\ dR' = ExpectRes(sc)
+  /\ pc' = IF ~HasOp2(sc) THEN "done" ELSE IF IsBin2(sc) THEN "ctorC" ELSE "op2"
+  /\ UNCHANGED <<sc, A, B, C, R2, dA, dB, dC>>
 
-Next == CtorA \/ FillA \/ CtorB \/ FillB \/ Op
+CtorC ==
+  /\ pc = "ctorC"
+  /\ LET r == StepCtorC(sc) IN
+       /\ C' = r.mat
+       /\ dC' = CtorMeaning(BCtor(sc.ckind), sc.n, <<>>)
+       /\ cok' = (cok /\ ClauseCtorC(sc, r.panic, ReadAll(r.mat)) /\ Shape(r.mat) = StC(sc))
+  /\ pc' = "fillC"
+  /\ UNCHANGED <<sc, A, B, R, R2, dA, dB, dR>>
+
+FillC ==
+  /\ pc = "fillC"
+  /\ LET r == StepFillC(sc, C) IN
+       /\ C' = r.mat
+       /\ dC' = WritesMeaning(dC, WsC(sc), 1)
+       /\ cok' = (cok /\ ClauseFillC(sc, dC, r.panic, ReadAll(r.mat)))
+  /\ pc' = "op2"
+  /\ UNCHANGED <<sc, A, B, R, R2, dA, dB, dR>>
+
+\* the second operation acts on the Level-B result of the first; the contract on its dense meaning dR
+Op2 ==
+  /\ pc = "op2"
+  /\ LET r == StepOp2(sc, R.mat, C)
+         stR == Shape(R.mat)
+     IN /\ R2' = r
+        /\ cok' = (cok /\ ClauseOp2(sc, dR, dC, stR, r.panic, ReadAll(r.mat), r.val)
+                       /\ r.panic = ExpectPanic2(sc, stR)
+                       /\ ReadAll(r.mat) = ExpectRes2(sc, stR)
+                       /\ (sc.op2 = "is_identity" => r.val = ExpectIsId2(sc)))
+  /\ pc' = "done"
+  /\ UNCHANGED <<sc, A, B, C, R, dA, dB, dC, dR>>
+
+Next == CtorA \/ FillA \/ CtorB \/ FillB \/ Op \/ CtorC \/ FillC \/ Op2
 
 Spec == Init /\ [][Next]_vars
 
@@ -124,10 +197,13 @@ Contract == cok
 Abstraction ==
   /\ pc \in {"fillA", "ctorB", "fillB", "op"} => ReadAll(A) = dA
   /\ pc \in {"fillB", "op"} /\ IsBin(sc) => ReadAll(B) = dB
+  /\ pc \in {"ctorC", "fillC", "op2"} => ReadAll(R.mat) = dR
+  /\ pc = "op2" /\ IsBin2(sc) => ReadAll(C) = dC
 
 TypeOK ==
-  /\ pc \in {"ctorA", "fillA", "ctorB", "fillB", "op", "done"}
+  /\ pc \in {"ctorA", "fillA", "ctorB", "fillB", "op", "ctorC", "fillC", "op2", "done"}
   /\ sc.op \in Ops /\ sc.ctor \in Ctors /\ sc.pat \in Pats /\ sc.bpat \in Pats
+  /\ sc.op2 \in Ops2 /\ sc.cpat \in Pats /\ (HasOp2(sc) => sc.op \in BinOps \cup ScalarOps)
 
 (* one REPLAY line per finished scenario: the scenario and what the contract expects *)
 Emit ==
@@ -135,9 +211,13 @@ Emit ==
     PrintT(<<"REPLAY", ToJson([sc |-> sc,
                                initA |-> InitA(sc), wsA |-> WsA(sc),
                                wsB |-> IF IsBin(sc) THEN WsB(sc) ELSE <<>>,
+                               wsC |-> IF IsBin2(sc) THEN WsC(sc) ELSE <<>>,
                                expect |-> [A0 |-> ExpectA0(sc), A1 |-> ExpectA1(sc),
                                            B1 |-> IF IsBin(sc) THEN ExpectB1(sc) ELSE <<>>,
                                            res |-> ExpectRes(sc), panic |-> ExpectPanic(sc),
                                            is_identity |-> ExpectIsId(sc),
-                                           specified |-> sc.op \notin {"swap_rows", "fill"}]])>>)
+                                           specified |-> sc.op \notin {"swap_rows", "fill"},
+                                           res2 |-> IF HasOp2(sc) THEN ExpectRes2(sc, Shape(R.mat)) ELSE <<>>,
+                                           panic2 |-> HasOp2(sc) /\ ExpectPanic2(sc, Shape(R.mat)),
+                                           is_identity2 |-> HasOp2(sc) /\ ExpectIsId2(sc)]])>>)
 =============================================================================
